@@ -680,8 +680,34 @@ func twinWriteLog(r *prng.R, base Case, br *res02) Case {
 	return finish02(r, c)
 }
 
+const (
+	findingF3     = "C02:failed-remove-drops-child-pointers"
+	findingF3Mech = "a Remove that fails with a node database read error has already overwritten the child pointers on its path with nil while the nodes stay clean (remove.go:86-91 assign doRemove's nil result before err is checked): "
+)
+
+// firedOn: some fault armed on an op of the given kind fired before the failure.
+func firedOn(c Case, r *res02, kind string) bool {
+	for i := range r.faulted {
+		if i < len(c.Ops) && c.Ops[i].K == kind {
+			return true
+		}
+	}
+	return false
+}
+
+// stripFaults removes the fault arming from the ops of the given kind.
+func stripFaults(c Case, kind string) Case {
+	ops := append([]Op{}, c.Ops...)
+	for i := range ops {
+		if ops[i].K == kind {
+			ops[i].FaultK, ops[i].Faulted = 0, false
+		}
+	}
+	return c.withOps(ops)
+}
+
 // share of the eligible base cases that get a fault twin
-const faultTwinPct = 25
+const faultTwinPct = 35
 
 // faultEligible: a database-backed base with a commit that is followed by further mutations.
 func faultEligible(base Case) bool {
@@ -738,7 +764,8 @@ func twinFault(r *prng.R, base Case) Case {
 	}
 	targets := map[int]int{} // op index -> k
 	for j, m := 0, r.Range(1, 3); j < m && len(cands) > 0; j++ {
-		targets[cands[r.Intn(len(cands))]] = r.Range(1, 3)
+		// k = 1 fails the first fetch of the op (often the root: nothing to corrupt yet), so 2 and 3 get more weight
+		targets[cands[r.Intn(len(cands))]] = []int{1, 2, 2, 3, 3}[r.Intn(5)]
 	}
 	// reopen points: for every target either directly before it (an extra commit
 	// + reopen: the whole path is cold) or after the nearest commit before it
@@ -905,6 +932,27 @@ func (s *session02) process(c Case, base *Case, br *res02) (*res02, int) {
 			s.sum.Count("sig_without_failure", "dirty_pointer_without_node")
 		}
 	}
+	if r.viol != nil && firedOn(c, r, "rem") {
+		// evidence for the failed-Remove defect: the same twin with the faults on
+		// removals taken out (faults on inserts kept) is clean
+		if runC02(stripFaults(c, "rem")).viol == nil {
+			s.sum.Count("rem_fault_rerun", "clean")
+			what := findingF3Mech + r.viol.what
+			recordFinding(s.sum, findingF3, what, c, r.sig, func() (Case, string) {
+				sc := shrink02(c, r.cut, func(cand Case, rc *res02) bool {
+					return firedOn(cand, rc, "rem") && runC02(stripFaults(cand, "rem")).viol == nil
+				})
+				w := what
+				if r2 := runC02(sc); r2.viol != nil {
+					w = findingF3Mech + r2.viol.what
+					sc = withFaulted(sc, r2)
+				}
+				return sc, w
+			})
+			return r, idx
+		}
+		s.sum.Count("rem_fault_rerun", "failed")
+	}
 	if r.viol != nil {
 		vc, vr, note := c, r, ""
 		if key, mech := classify(c, r.sig.failF1, r.sig.failPrefix, r.sig.failDepth); key != "" {
@@ -1010,12 +1058,46 @@ func (s *session02) pairViolation(what string, a Case, asig sigState, b Case, bs
 	s.sum.Violations = append(s.sum.Violations, map[string]any{"what": what, "case": map[string]any{"base": sa, "twin": sb}})
 }
 
+// logsReproduce: the write logs returned by the commits, applied in order to
+// the empty map, give the final reference contents (the case ends with a commit).
+func logsReproduce(r *res02) bool {
+	m := map[string][]byte{}
+	for _, lg := range r.logs {
+		for _, en := range lg {
+			if en.Val == nil {
+				delete(m, string(en.Key))
+			} else {
+				m[string(en.Key)] = en.Val
+			}
+		}
+	}
+	return canonContents(m) == canonContents(r.ref)
+}
+
 // S(1): a twin must end at its base's root. Returns true when a violation was recorded.
 func (s *session02) checkTwin(base Case, br *res02, twin Case, tr *res02) bool {
 	if br == nil || br.viol != nil || tr.viol != nil {
 		return false
 	}
 	if canonContents(br.ref) != canonContents(tr.ref) {
+		if twin.TwinKind == "writelog" && !logsReproduce(br) {
+			// the write logs returned by the base's commits are wrong although its tree
+			// is right: a cache finding of the base if, on evidence, the same base with
+			// ample capacities returns write logs that do reproduce its contents
+			what := "the write logs returned by Commit do not reproduce the committed contents (a removal of a key that an earlier eviction had already dropped is not logged)"
+			if key, mech := classify(base, br.sig.f1, br.sig.hadPrefix, br.sig.maxDepth); key != "" {
+				if ra := runC02(ample(base)); ra.viol == nil && logsReproduce(ra) {
+					s.sum.Count("ample_rerun", "clean")
+					sig := br.sig
+					sig.failF1, sig.failF2, sig.failPrefix, sig.failDepth = sig.f1, sig.f2, sig.hadPrefix, sig.maxDepth
+					recordFinding(s.sum, key, mech+what, base, sig, func() (Case, string) { return base, mech + what })
+					return true
+				}
+				s.sum.Count("ample_rerun", "failed")
+			}
+			s.sum.Violations = append(s.sum.Violations, map[string]any{"what": what, "case": base})
+			return true
+		}
 		// cannot happen unless the twin generator is wrong: make it loud
 		s.sum.Violations = append(s.sum.Violations, map[string]any{
 			"what": "harness: twin (" + twin.TwinKind + ") does not reproduce its base's contents",
